@@ -366,6 +366,10 @@ v('c18-stmt-write', 'C18', LO, "            if stmt.names:\n                fn =
   'names of the statement sorted in place')
 v('c18-silent-tuple', 'C18', M, "        metaclass.indices[name] = tuple(named_attributes)", "        metaclass.indices[name] = tuple(list(named_attributes))", 'silent', '', 'equivalent copy')
 
+v('c09-subtype-first-only', 'C09', M, "        subtype = navigate_one(supertype).nav(kind, rel_id)()\n        if subtype:\n            return subtype", "        subtype = navigate_one(supertype).nav(kind, rel_id)()\n        return subtype", 'fire', 'C09-NAV', 'subtype navigation gives up after the first link of the association')
+v('c09-subtype-wrong-rel', 'C09', M, "        if rel_id != rel_id_candidate:\n            continue\n        \n        subtype = navigate_one", "        if rel_id == rel_id_candidate:\n            continue\n        \n        subtype = navigate_one", 'fire', 'C09-NAV', 'subtype navigation follows the other associations')
+v('c09-subtype-nested', 'C09', M, "        if rel_id != rel_id_candidate:\n            continue\n        \n        subtype = navigate_one(supertype).nav(kind, rel_id)()\n        if subtype:\n            return subtype", "        if rel_id == rel_id_candidate:\n            found = navigate_one(supertype).nav(kind, rel_id)()\n            if found:\n                return found", 'silent', '', 'nested spelling of the subtype scan')
+
 # ---------------------------------------------------------------- C19
 v('c19-real-int', 'C19', M, "        elif uname == 'REAL':\n            return 0.0", "        elif uname == 'REAL':\n            return 0", 'fire', 'C19-DEFAULTS', 'real default is an int')
 v('c19-unknown-none', 'C19', M, "            raise MetaException(\"Unknown type named '%s'\" % type_name)", "            return None", 'fire', 'C19-DEFAULTS', 'unknown type accepted')
